@@ -27,6 +27,10 @@ claimed = {
    text="Seeded search over 1-4 sessions (real library clients with notification handlers and roots providers, and raw reference peers), 1-3 concurrent server-side sender tasks issuing SendNotification / BroadcastNotification / SendFilteredNotification with per-send nonces and payloads up to 66 KB, tool handlers issuing ListRoots inside their session, and a forging peer posting answers with guessed request ids from another session; on the Streamable server and (SendNotification, ListRoots) on the legacy SSE server. Oracle on the wire record: exactly-once delivery on the addressed session's stream only, per-sender order, reported counts equal sessions actually reached, ListRoots returns the roots of its own session (never a forged answer), pending tables empty after the drain.",
    note="Liveness part only from a quiescent state (every session's stream open and registered, no fault); sessions whose stream closed during the run are excluded from the must-succeed checks but not from the isolation checks.",
    tech=TECH+"wire-record isolation/accounting oracle with a forging peer"),
+ "C08": dict(cat="fault_enumeration", ref="DESIGN.md §6 C08",
+   text="Fault enumeration over a recorded pilot run: for each seeded workload (one real client of any kind/mode, handshake + 1-3 concurrent callers with 10 B-70 KB answers) a fault-free pilot records every I/O point (request sent, each server write/flush, each client read incl. EOF, each pipe read/write); the identical run is then repeated with exactly one fault armed at each point - connection reset, cut (unexpected EOF), caller cancellation, network stall until the caller's deadline, kill -9 of the stdio child (quick: <=40 (point,kind) pairs per pilot by stride; thorough: all). Oracle: every call pending at the fault returns; an error comes at the very simulated instant of the fault (at the deadline for a stall); a success carries the complete own answer; after Close and a 25-minute drain no library goroutine except the per-server sweeper is alive, no pending-request entry remains, every response body handed to the library was closed or read to its end, no server handler / stream registration / legacy session outlives its peer.",
+   note="Fault positions are message/call boundaries of the simulated transport (byte offsets inside one write are not enumerated; short reads are sampled). Goroutines are tracked through the instrumented go statements, fds and child pids through the simulator's connection/pipe records.",
+   tech=TECH+"fault enumeration at every recorded I/O point of a pilot run, promptness and resource-release oracle"),
 }
 NA = {
  "C18": "pure relation between two translators (schema generator vs encoding/json) over types and values: no schedule, clock, fault or interleaving for a simulator to decide (DESIGN.md §7)",
